@@ -1,4 +1,59 @@
-From Coq Require Import ZArith.
-From Tulz Require Import ResourceModel.
-Theorem placeholder_C02 : 1 = 1. Proof. reflexivity. Qed.
-Print Assumptions placeholder_C02.
+(* Properties_C02.v — rwp::Resource: every request is eventually granted; idle again after.
+   Only statements, each closed by [exact <lemma of ResourceProofs>], and Print Assumptions.
+   Closed system: every thread runs a finite program of lock/unlock pairs (cstate).
+   Liveness = deadlock freedom + a strictly decreasing variant; fairness of the scheduler and
+   of the condition variable (an enabled step is eventually taken; no infinite run of
+   spurious wake-ups) is assumed, not modelled. *)
+From Coq Require Import List ZArith Bool Lia.
+From Tulz Require Import Common ResourceModel ResourceInv ResourceProofs.
+Import ListNotations.
+Local Open Scope Z_scope.
+
+(* no deadlock, no lost wake-up: while some thread has not finished its program, some
+   non-spurious step (a lock() call, the wake-up of a notified waiter, an unlock(), a
+   notify_all()) is enabled *)
+Theorem C02_no_deadlock : forall ps ls c,
+  cexec true (cinit ps) ls = Some c -> finished c = false -> can_progress true c = true.
+Proof. exact no_deadlock. Qed.
+Print Assumptions C02_no_deadlock.
+
+(* every non-spurious step strictly decreases a non-negative measure *)
+Theorem C02_variant : forall ps ls c l c',
+  cexec true (cinit ps) ls = Some c -> cstep true c l = Some c' -> is_spurious l = false ->
+  0 <= measure c' < measure c.
+Proof. exact variant_decreases. Qed.
+Print Assumptions C02_variant.
+
+(* hence the number of non-spurious steps of any execution is bounded by the initial measure
+   plus the number of spurious wake-ups it contains (each spurious wake-up pays for at most
+   one extra re-check of a wait predicate): an execution with finitely many spurious wake-ups
+   that keeps taking enabled steps ends with all programs finished, i.e. every lock*() call
+   has returned *)
+Theorem C02_bounded : forall ps ls c,
+  cexec true (cinit ps) ls = Some c ->
+  Zlen (filter (fun l => negb (is_spurious l)) ls) <= measure (cinit ps) + Zlen (filter is_spurious ls).
+Proof. exact nonspurious_bounded. Qed.
+Print Assumptions C02_bounded.
+
+(* after all locks have been released the Resource is back in its initial state ... *)
+Theorem C02_idle_again : forall n ls, all_idle (run true (init n) ls) -> rs (run true (init n) ls) = r0.
+Proof. exact idle_again. Qed.
+Print Assumptions C02_idle_again.
+
+(* ... and grants the next read or write request without waiting *)
+Theorem C02_idle_grants : forall n ls t op, (t < n)%nat -> all_idle (run true (init n) ls) ->
+  exists s', step true (run true (init n) ls) (Req t op) = Some s' /\ nth_error (thr s') t = Some (Holding op).
+Proof. exact idle_grants. Qed.
+Print Assumptions C02_idle_grants.
+
+(* The pinned upstream code loses a wake-up: a reachable unfinished state without any enabled
+   non-spurious step (thread 1 parked forever, lock idle). *)
+Theorem C02_upstream_refuted : exists ps ls c,
+  cexec false (cinit ps) ls = Some c /\ finished c = false /\ can_progress false c = false.
+Proof. exact upstream_lost_wakeup. Qed.
+Print Assumptions C02_upstream_refuted.
+
+Example C02_nonvacuous :
+  exists c, cexec true (cinit [[Wr; Rd]; [Rd]]) [Req 0 Wr; Req 1 Rd; Rel 0; Notify 0; Req 0 Rd; Rel 0] = Some c
+            /\ finished c = false /\ can_progress true c = true /\ measure c = 4.
+Proof. eexists. vm_compute. repeat split; reflexivity. Qed.
